@@ -303,11 +303,23 @@ func c06PrefixExact(c *Ctx) {
 		case r.IsCall("strings.TrimPrefix") && len(r.Args) == 2 && r.Args[0].Key() == tok.Key():
 		case r.Op == "ret" && r.Name == "0" && len(r.Args) == 1 && r.Args[0].IsCall("strings.CutPrefix") && r.Args[0].Args[0].Key() == tok.Key():
 		case r.Op == "slice" && len(r.Args) == 3 && r.Args[0].Key() == tok.Key() && hasPrefix(true):
-		case r.Key() == tok.Key() && (hasPrefix(false) || len(p.Facts) == 0):
+		case r.Key() == tok.Key() && (hasPrefix(false) || len(p.Facts) == 0 || cutFound(p, tok, false)):
+		case r.Op == "ret" && r.Name == "0" && len(r.Args) == 1 && r.Args[0].IsCall("strings.CutPrefix"):
 		default:
 			ok, w = false, p
 			why = "the token handed to the MAC check is " + clip(r.Pretty(), 80) + ": not the token with an exactly matching prefix removed"
 		}
 	}
 	c.Check(ok && n > 0, rule, role, fn, "prefix-exact", "the prefix is removed only by an exact, whole-prefix match (TrimPrefix / CutPrefix / HasPrefix+slice)", why, w)
+}
+
+// cutFound: the path knows the "found" result of strings.CutPrefix(token, …) to be pol.
+func cutFound(p *Path, tok *Term, pol bool) bool {
+	for _, f := range p.Facts {
+		a := f.Atom.A
+		if f.Atom.Kind == "B" && f.Pol == pol && a.Op == "ret" && a.Name == "1" && len(a.Args) == 1 && a.Args[0].IsCall("strings.CutPrefix") && len(a.Args[0].Args) == 2 && a.Args[0].Args[0].Key() == tok.Key() {
+			return true
+		}
+	}
+	return false
 }
